@@ -2123,12 +2123,17 @@ static WBXMLError wbxml_encode_value_element_buffer(WBXMLEncoder *encoder, WB_UT
 #endif /* WBXML_SUPPORT_DRMREL */
 
 #if defined( WBXML_SUPPORT_SYNCML )
-        /* If this is a SyncML document ? */
-        if ((encoder->lang->langID == WBXML_LANG_SYNCML_SYNCML10) ||
-            (encoder->lang->langID == WBXML_LANG_SYNCML_SYNCML11) ||
-            (encoder->lang->langID == WBXML_LANG_SYNCML_SYNCML12))
+        /* If this is the content of a <Type> element (MetInf: Code Page 0x01, Token 0x13) of a SyncML document ?
+         * (the XML generator undoes this change in <Type> elements only) */
+        if (((encoder->lang->langID == WBXML_LANG_SYNCML_SYNCML10) ||
+             (encoder->lang->langID == WBXML_LANG_SYNCML_SYNCML11) ||
+             (encoder->lang->langID == WBXML_LANG_SYNCML_SYNCML12)) &&
+            (encoder->current_text_parent != NULL) &&
+            (encoder->current_text_parent->name != NULL) &&
+            (encoder->current_text_parent->name->type == WBXML_VALUE_TOKEN) &&
+            (encoder->current_text_parent->name->u.token->wbxmlCodePage == 0x01) &&
+            (encoder->current_text_parent->name->u.token->wbxmlToken == 0x13))
         {
-            /** @todo We must check too if we are in a <Type> */
 
             /* Change text in <Type> from "application/vnd.syncml-devinf+xml" to "application/vnd.syncml-devinf+wbxml" */
             if (WBXML_STRCASECMP(buffer, "application/vnd.syncml-devinf+xml") == 0) {
